@@ -144,7 +144,7 @@ func (it *intent) elem(n *gen.Node) bool {
 	if n.ObjRef != "" {
 		parts := []string{}
 		if i := strings.Index(n.ObjRef, ","); i >= 0 {
-			parts = append(parts, strings.Trim(strings.TrimSpace(n.ObjRef[i+1:]), `"`))
+			parts = append(parts, ObjPrefix(n.ObjRef[i+1:], it.e))
 		}
 		parts = append(parts, it.e.O0.Class, it.e.O0.ID)
 		it.w(` id="` + html.EscapeString(strings.Join(parts, "_")) + `"`)
@@ -159,7 +159,7 @@ func (it *intent) elem(n *gen.Node) bool {
 	if n.ObjRef != "" {
 		parts := []string{}
 		if i := strings.Index(n.ObjRef, ","); i >= 0 {
-			parts = append(parts, strings.Trim(strings.TrimSpace(n.ObjRef[i+1:]), `"`))
+			parts = append(parts, ObjPrefix(n.ObjRef[i+1:], it.e))
 		}
 		parts = append(parts, it.e.O0.Class)
 		if c := strings.Join(parts, "_"); c != "" {
